@@ -10,11 +10,11 @@ def GrpOk (k : Kind) (nm : Named) (cs cs' : List Xml) : Prop :=
   match k.group with
   | .delete | .send =>
     (match cIds k nm cs with
-     | some ids => cIds k nm cs' = some (specIds k (levelTag k) nm ids)
+     | some ids => cIds k nm cs' = some (c06Ids k (levelTag k) nm ids)
      | none => cs' = cs)
   | .insert =>
     (match cIds k nm cs with
-     | some ids => cIds k nm cs' = some (specIds k (levelTag k) nm ids)
+     | some ids => cIds k nm cs' = some (c06Ids k (levelTag k) nm ids)
      | none => False)
   | _ => True
 
@@ -152,56 +152,40 @@ theorem c06_EAItemInsert (d rc base : Xml) (hrc : rcOf d = some rc) :
 
 /-! ### deletes -/
 
-theorem deleteLoop_editOk (tag : String) (w : Warn) (ids : List Key) (cs : List Xml) (hs : ∀ x ∈ keysOf tag cs, x.isSome = true) (hn : (keysOf tag cs).Nodup) :
+theorem deleteLoop_editOk (tag : String) (w : Warn) (ids : List Key) (cs : List Xml) :
     EditOk tag cs (deleteLoop tag w none cs ids []) (delWarns w ids (keysOf tag cs))
-      ((keysOf tag cs).filter (fun x => !ids.contains x)) := by
-  obtain ⟨cs', h1, h2, h3⟩ := deleteLoop_closed tag w ids cs [] hs hn
+      (delKeys ids (keysOf tag cs)) := by
+  obtain ⟨cs', h1, h2, h3⟩ := deleteLoop_closed tag w ids cs []
   rw [h1]
   exact ⟨rfl, by simp, h3, h2⟩
 
-/-- the ID hypothesis of `DomC06` on the `roCreate` children -/
-def IdsOk (k : Kind) (nm : Named) (cs : List Xml) : Prop :=
-  ∀ ids, cIds k nm cs = some ids → (∀ x ∈ ids, x.isSome = true) ∧ ids.Nodup
-
-/-- with every ID present, "not named" and "not (present and named)" select the same IDs -/
-theorem filter_named_some (ids ss : List Key) (hs : ∀ x ∈ ids, x.isSome = true) :
-    ids.filter (fun x => !ss.contains x) = ids.filter (fun x => !(x.isSome && ss.contains x)) := by
-  apply List.filter_congr
-  intro x hx
-  simp [hs x hx]
-
-theorem c06_StoryDelete (d rc base : Xml) (hrc : rcOf d = some rc)
-    (hid : IdsOk .StoryDelete (namedOf .StoryDelete base) rc.kids) :
+theorem c06_StoryDelete (d rc base : Xml) (hrc : rcOf d = some rc) :
     C06Out .StoryDelete d rc base := by
   unfold C06Out
   simp only [mergeRc]
-  obtain ⟨hs, hn⟩ := hid _ (cIds_story _ _ _ rfl)
-  have he := deleteLoop_editOk "story" .storyNotFound (idTexts base "storyID") rc.kids hs hn
+  have he := deleteLoop_editOk "story" .storyNotFound (idTexts base "storyID") rc.kids
   right
   refine ⟨he.err, ?_, ?_⟩
   · simp only [he.warns, expectedWarns, hrc]; rfl
   · unfold GrpOk
     simp only [Kind.group]
-    rw [cIds_story _ _ _ rfl, cIds_story _ _ _ rfl, he.keys, filter_named_some _ _ hs]
+    rw [cIds_story _ _ _ rfl, cIds_story _ _ _ rfl, he.keys]
     rfl
 
-theorem c06_EAStoryDelete (d rc base : Xml) (hrc : rcOf d = some rc)
-    (hid : IdsOk .EAStoryDelete (namedOf .EAStoryDelete base) rc.kids) :
+theorem c06_EAStoryDelete (d rc base : Xml) (hrc : rcOf d = some rc) :
     C06Out .EAStoryDelete d rc base := by
   unfold C06Out
   simp only [mergeRc]
-  obtain ⟨hs, hn⟩ := hid _ (cIds_story _ _ _ rfl)
-  have he := deleteLoop_editOk "story" .storyNotFound (eaSourceIds base "storyID") rc.kids hs hn
+  have he := deleteLoop_editOk "story" .storyNotFound (eaSourceIds base "storyID") rc.kids
   right
   refine ⟨he.err, ?_, ?_⟩
   · simp only [he.warns, expectedWarns, hrc]; rfl
   · unfold GrpOk
     simp only [Kind.group]
-    rw [cIds_story _ _ _ rfl, cIds_story _ _ _ rfl, he.keys, filter_named_some _ _ hs]
+    rw [cIds_story _ _ _ rfl, cIds_story _ _ _ rfl, he.keys]
     rfl
 
-theorem c06_ItemDelete (d rc base : Xml) (hrc : rcOf d = some rc)
-    (hid : IdsOk .ItemDelete (namedOf .ItemDelete base) rc.kids) :
+theorem c06_ItemDelete (d rc base : Xml) (hrc : rcOf d = some rc) :
     C06Out .ItemDelete d rc base := by
   unfold C06Out
   simp only [mergeRc]
@@ -212,8 +196,7 @@ theorem c06_ItemDelete (d rc base : Xml) (hrc : rcOf d = some rc)
   · rw [ho]
     have c0 := cIds_item_split .ItemDelete (namedOf .ItemDelete base) a b x key rfl hsid hx ha
     rw [← hcs] at c0
-    obtain ⟨hs, hn⟩ := hid _ c0
-    have he := deleteLoop_editOk "item" .itemNotFound (idTexts base "itemID") x.kids hs hn
+    have he := deleteLoop_editOk "item" .itemNotFound (idTexts base "itemID") x.kids
     obtain ⟨c1, c2⟩ := item_compose .ItemDelete (namedOf .ItemDelete base) a b x key _ _ _ rfl hsid hx ha he
     right
     refine ⟨he.err, ?_, ?_⟩
@@ -226,11 +209,10 @@ theorem c06_ItemDelete (d rc base : Xml) (hrc : rcOf d = some rc)
       simp only [Kind.group]
       rw [c0]
       simp only
-      rw [c2, filter_named_some _ _ hs]
+      rw [c2]
       rfl
 
-theorem c06_EAItemDelete (d rc base : Xml) (hrc : rcOf d = some rc)
-    (hid : IdsOk .EAItemDelete (namedOf .EAItemDelete base) rc.kids) :
+theorem c06_EAItemDelete (d rc base : Xml) (hrc : rcOf d = some rc) :
     C06Out .EAItemDelete d rc base := by
   unfold C06Out
   simp only [mergeRc]
@@ -254,8 +236,7 @@ theorem c06_EAItemDelete (d rc base : Xml) (hrc : rcOf d = some rc)
     rw [ho]
     have c0 := cIds_item_split .EAItemDelete (namedOf .EAItemDelete base) a b x key rfl hsid hx ha
     rw [← hcs] at c0
-    obtain ⟨hs, hn⟩ := hid _ c0
-    have he := deleteLoop_editOk "item" .itemNotFound (eaSourceIds base "itemID") x.kids hs hn
+    have he := deleteLoop_editOk "item" .itemNotFound (eaSourceIds base "itemID") x.kids
     obtain ⟨c1, c2⟩ := item_compose .EAItemDelete (namedOf .EAItemDelete base) a b x key _ _ _ rfl hsid hx ha he
     right
     refine ⟨he.err, ?_, ?_⟩
@@ -268,7 +249,7 @@ theorem c06_EAItemDelete (d rc base : Xml) (hrc : rcOf d = some rc)
       simp only [Kind.group]
       rw [c0]
       simp only
-      rw [c2, filter_named_some _ _ hs]
+      rw [c2]
       rfl
 
 /-! ### story inserts -/
@@ -321,7 +302,7 @@ theorem c06_StoryInsert (d rc base : Xml) (hrc : rcOf d = some rc)
       have : (namedOf .StoryInsert base).target = some (some key) := by
         show some (elemId (some base) "storyID") = _
         rw [hid]
-      simp only [specIds, Kind.group, Kind.dedups, this, if_true]
+      simp only [c06Ids, specIds, Kind.group, Kind.dedups, this, if_true]
       rfl
 
 theorem c06_EAStoryInsert (d rc base : Xml) (hrc : rcOf d = some rc)
@@ -344,7 +325,7 @@ theorem c06_EAStoryInsert (d rc base : Xml) (hrc : rcOf d = some rc)
       rw [cIds_story _ _ _ rfl, cIds_story _ _ _ rfl]
       simp only
       rw [storyInsert_keys_end _ _ _ (elemsOf_tag _ _)]
-      simp only [specIds, Kind.group, Kind.dedups, ht, if_true]
+      simp only [c06Ids, specIds, Kind.group, Kind.dedups, ht, if_true]
       rfl
   | some key =>
     have ht : (namedOf .EAStoryInsert base).target = some (some key) := by
@@ -371,7 +352,7 @@ theorem c06_EAStoryInsert (d rc base : Xml) (hrc : rcOf d = some rc)
         rw [cIds_story _ _ _ rfl, cIds_story _ _ _ rfl]
         simp only
         rw [storyInsert_keys a b _ x key _ hx1 hx2 ha (elemsOf_tag _ _), ← hcs]
-        simp only [specIds, Kind.group, Kind.dedups, ht, if_true]
+        simp only [c06Ids, specIds, Kind.group, Kind.dedups, ht, if_true]
         rfl
 
 /-! ### roStorySend -/
@@ -436,25 +417,12 @@ theorem c06_quiet (k : Kind) (d rc base : Xml) (hrc : rcOf d = some rc)
     · unfold GrpOk
       cases k <;> first | exact absurd hq (by decide) | trivial
 
-theorem idsOk_of_dom (k : Kind) (nm : Named) (d rc : Xml) (hrc : rcOf d = some rc) (hq : k.isQuiet = false)
-    (h : (match k.group with
-      | .delete | .insert | .send =>
-        (match containerIds k nm d with
-         | some ids => ids.all (·.isSome) && decide ids.Nodup
-         | none => true)
-      | _ => true) = true) : IdsOk k nm rc.kids := by
-  intro ids hids
-  rw [containerIds_eq k nm d rc hrc, hids] at h
-  have : (ids.all (·.isSome) && decide ids.Nodup) = true := by
-    cases k <;> first | exact absurd hq (by decide) | exact h
-  simpa using this
-
 theorem warns_any (i : MergeInput) (h : DomC06 i = true) :
     holdsC06 i (addK i.k i.d i.m) = true := by
   obtain ⟨d, m, k⟩ := i
   unfold DomC06 at h
   simp only [Bool.and_eq_true] at h
-  obtain ⟨⟨⟨hwf, htim⟩, hsh⟩, hdom⟩ := h
+  obtain ⟨⟨hwf, htim⟩, hsh⟩ := h
   obtain ⟨rc, hrc⟩ := wfRO_unpack_w hwf
   have htim' : storiesExc rc = none := by
     simpa [TimingOk, hrc] using htim
@@ -463,7 +431,6 @@ theorem warns_any (i : MergeInput) (h : DomC06 i = true) :
     | none => simp [shaped, hb] at hsh
     | some base => exact ⟨base, rfl⟩
   obtain ⟨hmid, hsb⟩ := shaped_unpack_w hsh hb
-  simp only [hb] at hdom
   by_cases hc : completed d = true
   · simp [holdsC06, hb, addK, hc, Err.isMergeError]
   · have hc' : completed d = false := by simpa using hc
@@ -475,15 +442,14 @@ theorem warns_any (i : MergeInput) (h : DomC06 i = true) :
       by_cases hq : k.isQuiet = true
       · exact c06_quiet k d rc base hrc hsb hq
       · have hq' : k.isQuiet = false := by simpa using hq
-        have hid := idsOk_of_dom k (namedOf k base) d rc hrc hq' hdom
         cases k <;> first | exact absurd hq' (by decide) | skip
         · exact c06_StorySend d rc base hrc hsb
-        · exact c06_StoryDelete d rc base hrc hid
+        · exact c06_StoryDelete d rc base hrc
         · exact c06_StoryInsert d rc base hrc htim'
-        · exact c06_ItemDelete d rc base hrc hid
+        · exact c06_ItemDelete d rc base hrc
         · exact c06_ItemInsert d rc base hrc
-        · exact c06_EAStoryDelete d rc base hrc hid
-        · exact c06_EAItemDelete d rc base hrc hid
+        · exact c06_EAStoryDelete d rc base hrc
+        · exact c06_EAItemDelete d rc base hrc
         · exact c06_EAStoryInsert d rc base hrc htim'
         · exact c06_EAItemInsert d rc base hrc
     · obtain ⟨j, hj, _⟩ := rcIndex_of_rcOf hrc
@@ -491,5 +457,73 @@ theorem warns_any (i : MergeInput) (h : DomC06 i = true) :
       · exact absurd hsb (by simp [shapedBase])
       · simp [holdsC06, hb, addK, hc', merge, findChildAny_eq_rcIndex, hj, expectedWarns, hrc, Kind.group]
       · simp [holdsC06, hb, addK, hc', merge, expectedWarns, hrc, Kind.group]
+
+/-! ### consistency with C01/C02: on unique present IDs `delKeys` is the protocol's filter -/
+
+theorem erase_eq_filter_of_nodup_some (k : String) : ∀ (ids : List Key),
+    (ids.filter (·.isSome)).Nodup → ids.erase (some k) = ids.filter (fun x => x != some k) := by
+  intro ids
+  induction ids with
+  | nil => intro _; rfl
+  | cons a t ih =>
+    intro hn
+    by_cases ha : a = some k
+    · subst ha
+      simp only [List.filter_cons, Option.isSome_some, if_true, List.nodup_cons] at hn
+      have hk : some k ∉ t := by
+        intro hm; exact hn.1 (List.mem_filter.mpr ⟨hm, rfl⟩)
+      rw [List.erase_cons_head, List.filter_cons]
+      simp only [bne_self_eq_false, Bool.false_eq_true, if_false]
+      symm
+      rw [List.filter_eq_self]
+      intro x hx
+      have : x ≠ some k := by intro e; rw [e] at hx; exact hk hx
+      simpa using this
+    · have hn' : (t.filter (·.isSome)).Nodup := by
+        rw [List.filter_cons] at hn
+        split at hn
+        · exact (List.nodup_cons.mp hn).2
+        · exact hn
+      have hne : (a == some k) = false := by simpa using ha
+      rw [List.erase_cons, List.filter_cons]
+      simp only [hne, Bool.false_eq_true, if_false, bne, Bool.not_false, if_true]
+      rw [ih hn']
+      rfl
+
+theorem delKeys_eq_filter (ss : List Key) : ∀ (ids : List Key), (ids.filter (·.isSome)).Nodup →
+    delKeys ss ids = ids.filter (fun x => !(x.isSome && ss.contains x)) := by
+  induction ss with
+  | nil =>
+    intro ids _
+    rw [delKeys_nil]
+    exact (List.filter_eq_self.mpr (by intros; simp)).symm
+  | cons s ss ih =>
+    intro ids hn
+    rw [delKeys_cons]
+    cases s with
+    | none =>
+      simp only [Option.isSome_none, Bool.false_eq_true, if_false]
+      rw [ih ids hn]
+      apply List.filter_congr
+      intro x _
+      cases x <;> simp
+    | some k =>
+      simp only [Option.isSome_some, if_true]
+      have hn' : ((ids.erase (some k)).filter (·.isSome)).Nodup :=
+        (List.erase_sublist.filter _).nodup hn
+      rw [ih _ hn', erase_eq_filter_of_nodup_some k ids hn, List.filter_filter]
+      apply List.filter_congr
+      intro x _
+      by_cases hx : x = some k
+      · subst hx; simp
+      · have : (x == some k) = false := by simpa using hx
+        cases x <;> simp_all
+
+/-- under the uniqueness hypothesis of C01/C02 the sequence C06 promises is the protocol's -/
+theorem c06Ids_eq_specIds (k : Kind) (tag : String) (nm : Named) (ids : List Key)
+    (hn : (ids.filter (·.isSome)).Nodup) : c06Ids k tag nm ids = specIds k tag nm ids := by
+  unfold c06Ids specIds
+  cases hg : k.group <;> simp only
+  exact delKeys_eq_filter _ _ hn
 
 end Mrm
